@@ -88,6 +88,15 @@ Lemma lost_before_connect_witness :
   end.
 Proof. vm_compute. reflexivity. Qed.
 
+Definition lost_prefix : list op := [OSubCreate None None; OPubCreate 1 false HNone; OSendCopy 0].
+Definition lost_before : world := match run (world_new cfg11) lost_prefix with Val (w, _) => w | Panic => world_new cfg11 end.
+Lemma lost_witness :
+  (exists obs, run (world_new cfg11) lost_prefix = Val (lost_before, obs))
+  /\ exists w1 ob, step lost_before (OPubDrop 0) = Val (w1, ob) /\ lost_delivery lost_before w1 = 1.
+Proof.
+  split; [eexists; vm_compute; reflexivity|]. do 2 eexists. split; vm_compute; reflexivity.
+Qed.
+
 (* saturation: every chunk of the data segment in use, and the invariant holds *)
 Definition cfg_sat : config := {| cf_S := 1; cf_P := 1; cf_B := 2; cf_M := 2; cf_H := 1; cf_ovf := false; cf_E := 2 |}.
 Definition sat_history : list op :=
